@@ -7,6 +7,7 @@ package main
 import (
 	"fmt"
 	"go/ast"
+	"go/build"
 	"go/parser"
 	"go/token"
 	"math/big"
@@ -33,6 +34,9 @@ type sfield struct{ name, typ string }
 var fset = token.NewFileSet()
 var missing []string
 
+// shipped: the build context of the library as it ships — no custom build tags
+var shipped = func() build.Context { c := build.Default; c.BuildTags = nil; c.CgoEnabled = false; return c }()
+
 func miss(format string, a ...any) { missing = append(missing, fmt.Sprintf(format, a...)) }
 
 func load(repo, name string) *pkg {
@@ -42,6 +46,12 @@ func load(repo, name string) *pkg {
 	sort.Strings(matches)
 	for _, m := range matches {
 		if strings.HasSuffix(m, "_test.go") || strings.HasSuffix(m, "verif_hooks.go") {
+			continue
+		}
+		// only the files the compiler sees in the build that ships (default GOOS/GOARCH, no build tags): a file
+		// excluded by a build constraint (`//go:build ignore`, `verif`, another platform) must not supply facts
+		if ok, err := shipped.MatchFile(filepath.Dir(m), filepath.Base(m)); err == nil && !ok {
+			fmt.Fprintln(os.Stderr, "note: "+name+"/"+filepath.Base(m)+" is excluded from the default build by a build constraint; ignored")
 			continue
 		}
 		f, err := parser.ParseFile(fset, m, nil, 0)
